@@ -1888,22 +1888,43 @@ variable {I : Interp} {p : Evm.Params} {S : Nat → Prop} {w0 : Evm.World}
 variable {cs : CState} {w : Evm.World} {f : Evm.Frame} {kcs : List CCont}
 variable {s : Simp} {o : Oracle} {cfg : Cfg} {codes : List (Nat × List Nat)}
 
-/-- what the simulation of CREATE assumes (all of it only when `cfg.create` is on): balances are not followed (PARTIAL:
-    a CREATE with a value other than the literal 0 then ends the path stuck); the reference's allocator hands out the
-    model's addresses — its counter is the start world's plus the model's `nonce`; the allocator's addresses are
+/-- what the simulation of CREATE assumes (all of it only when `cfg.create` is on): the reference's allocator hands out
+    the model's addresses — its counter is the start world's plus the model's `nonce`; the allocator's addresses are
     modelled accounts; the start world's balances are words -/
 def CreateHyp (cfg : Cfg) (p : Evm.Params) (S : Nat → Prop) (w0 : Evm.World) : Prop :=
-  cfg.create = true → cfg.balances = false ∧
+  cfg.create = true →
     (∀ n, p.newAddress (w0.created + n) = (cfg.allocBase + n) % 2 ^ 160) ∧
     (∀ n, S ((cfg.allocBase + n) % 2 ^ 160)) ∧ ∀ a, w0.balanceOf a < 2 ^ 256
 
 theorem CreateHyp.off (hnc : cfg.create = false) : CreateHyp cfg p S w0 := by
   intro h; rw [hnc] at h; cases h
 
-theorem CreateHyp.cp (h : CreateHyp cfg p S w0) : cfg.create = false ∨ cfg.balances = false := by
-  cases hc : cfg.create
-  · exact Or.inl rfl
-  · exact Or.inr (h hc).1
+/-- `fund = popi()` is not the literal 0: the value as a term -/
+theorem fundOf_some (hs : SimpSound s) {fv : HV} {v : Nat} (hwv : WordRel I fv v) {fvt : T}
+    (h : fundOf s fv = some fvt) : fvt.WF ∧ fvt.width = 256 ∧ fvt.eval I = v := by
+  obtain ⟨r', er, wf, d⟩ := (toBV256_ok hs I hwv.1 hwv.2.1).ok_inj
+  unfold fundOf at h
+  rw [er] at h
+  have hfv : fvt = asZ3 256 r' := by
+    cases r' with
+    | con n =>
+      cases n with
+      | zero => simp at h
+      | succ n => simpa using h.symm
+    | sym t' => simpa using h.symm
+  obtain ⟨z1, z2, z3⟩ := asZ3_ok (I := I) wf
+  exact ⟨by rw [hfv]; exact z1, by rw [hfv]; exact z2, by rw [hfv, z3, d, hwv.2.2]⟩
+
+/-- a CREATE whose value is not the literal 0, all operands decoded: the value term `fv` denotes the concrete value
+    `v`, the reference is at the CREATE, the init code is the bytes `init` of its memory -/
+def CreateValueCase (I : Interp) (p : Evm.Params) (s : Simp) (o : Oracle) (cfg : Cfg) (codes : List (Nat × List Nat))
+    (cs : CState) (w : Evm.World) (f : Evm.Frame) (lo : LocalOut) : Prop :=
+  ∃ (v : Nat) (fv : T) (off len : Nat) (rest : List HV) (crest : List Nat) (init : List Nat),
+    lo = createGoV s o cfg codes { cs with nonce := cs.nonce + 1 } 0xf0
+      ((cfg.allocBase + (cs.nonce + 1)) % 2 ^ 160) fv rest init ∧
+    StackRel I rest crest ∧ fv.WF ∧ fv.width = 256 ∧ fv.eval I = v ∧
+    Evm.step p w f = .create 0xf0 w { f with stack := crest } v off len 0 ∧ Evm.memOk p off len = true ∧
+    Evm.readBytes f.mem off len = init ∧ (∀ b ∈ init, b < 256) ∧ f.isStatic = false
 
 /-- the codes a frame sees are the codes of the world, of modelled accounts, and bytes -/
 theorem dyn_codes (hcodes : ∀ a, w0.codeOf a = codeOf codes a) (hS : ∀ a prog, codeOf codes a = some prog → S a)
@@ -1923,9 +1944,10 @@ theorem dyn_codes (hcodes : ∀ a, w0.codeOf a = codeOf codes a) (hS : ∀ a pro
     | none => rw [hc] at h; exact hcb a prog h
     | some q => rw [hc] at h; cases h; exact (hrel.hcr a _ hc).2
 
-/-- **CREATE** (under `CreateHyp`) -/
-theorem createOut_corr (hs : SimpSound s) (hmem : cfg.maxMem + 32 ≤ p.memLimit) (hdep : 1024 ≤ p.maxDepth)
+/-- **CREATE** (under `CreateHyp`), everything but a value other than the literal 0 -/
+theorem createOut_corr_aux (hs : SimpSound s) (hmem : cfg.maxMem + 32 ≤ p.memLimit) (hdep : 1024 ≤ p.maxDepth)
     (hcodes : ∀ a, w.codeOf a = codeOf codes a) (hch : CreateHyp cfg p S w0)
+    (hnv : ¬ CreateValueCase I p s o cfg codes cs w f (createOut s o cfg codes cs 0xf0))
     (hrel : RelC I p S w0 cs w f kcs) (hop : opAt cs.code cs.st.pc = 0xf0) (hl : ¬ cs.st.stack.length > 1024) :
     CallCorr I p S w0 cs w f kcs (createOut s o cfg codes cs 0xf0) := by
   have hR := hrel.hR
@@ -1940,7 +1962,7 @@ theorem createOut_corr (hs : SimpSound s) (hmem : cfg.maxMem + 32 ≤ p.memLimit
     simp only [hc', Bool.not_false, if_true]
     exact Or.inl ⟨_, rfl, rfl, Or.inl ⟨_, rfl⟩⟩
   simp only [hcfg, Bool.not_true, Bool.false_eq_true, if_false]
-  obtain ⟨hboff, hal, hSa, hb0⟩ := hch hcfg
+  obtain ⟨hal, hSa, hb0⟩ := hch hcfg
   have hbw : ∀ a, w.balanceOf a < 2 ^ 256 := fun a => by
     rw [hrel.hW.bal]; exact balSem_lt_base hb0 hrel.hbal a
   by_cases hst : cs.env.isStatic = true
@@ -1984,20 +2006,26 @@ theorem createOut_corr (hs : SimpSound s) (hmem : cfg.maxMem + 32 ≤ p.memLimit
             | none => exact Or.inl ⟨_, rfl, rfl, Or.inl ⟨_, rfl⟩⟩
             | some init0 =>
               simp only
+              have hstep := evm_create (p := p) (w := w) hopc hlc hc1 hns
+              have hm : Evm.memOk p off len = true := memOk_of (by
+                by_cases h0 : len = 0
+                · exact Or.inl h0
+                · right; have : ¬ off + len > cfg.maxMem := fun h => hml ⟨h0, h⟩
+                  omega)
+              have hinit0 : Evm.readBytes f.mem off len = init0.map (· % 256) := by
+                have hmr := readMem_rel hR.mem off len
+                rw [← hmr.2]; exact litBytes_mod hlit
               cases hfund : fundOf s fv with
               | some fvt =>
-                simp only [hboff, Bool.not_false, if_true]
-                exact Or.inl ⟨_, rfl, rfl, Or.inl ⟨_, rfl⟩⟩
+                obtain ⟨z1, z2, z3⟩ := fundOf_some hs hwv hfund
+                refine absurd ⟨v, fvt, off, len, rest, crest, _, ?_, hrest, z1, z2, z3, hstep, hm, hinit0,
+                  mod256_lt init0, hns⟩ hnv
+                unfold createOut
+                simp only [hcfg, Bool.not_true, Bool.false_eq_true, if_false, hst, hstk, heq1, heq2, hml, hlit, hfund]
               | none =>
                 simp only
                 have hv0 := fundOf_none hs hwv hfund
                 subst hv0
-                have hstep := evm_create (p := p) (w := w) hopc hlc hc1 hns
-                have hm : Evm.memOk p off len = true := memOk_of (by
-                  by_cases h0 : len = 0
-                  · exact Or.inl h0
-                  · right; have : ¬ off + len > cfg.maxMem := fun h => hml ⟨h0, h⟩
-                    omega)
                 generalize hg : (({ f with stack := crest } : Evm.Frame).touch off len) = g at *
                 have e_code : g.code = f.code := by rw [← hg, touch_code]
                 have e_caller : g.caller = f.caller := by rw [← hg, touch_caller]
@@ -2081,6 +2109,280 @@ theorem createOut_corr (hs : SimpSound s) (hmem : cfg.maxMem + 32 ≤ p.memLimit
                   hrel.conts halt (hSa _) (mod256_lt init0) ⟨(by decide : 0 < 256), Nat.le_refl _, rfl⟩
           · exact Or.inl ⟨_, rfl, rfl, Or.inl ⟨_, rfl⟩⟩
         · exact Or.inl ⟨_, rfl, rfl, Or.inl ⟨_, rfl⟩⟩
+
+end
+
+section
+variable {I : Interp} {p : Evm.Params} {S : Nat → Prop} {w0 : Evm.World}
+variable {cs : CState} {w : Evm.World} {f : Evm.Frame} {kcs : List CCont}
+variable {s : Simp} {o : Oracle} {cfg : Cfg} {codes : List (Nat × List Nat)}
+
+/-- **CREATE**: everything but a value other than the literal 0 (`CallCorr`), or that (`CreateValueCase`) -/
+theorem createOut_corr (hs : SimpSound s) (hmem : cfg.maxMem + 32 ≤ p.memLimit) (hdep : 1024 ≤ p.maxDepth)
+    (hcodes : ∀ a, w.codeOf a = codeOf codes a) (hch : CreateHyp cfg p S w0)
+    (hrel : RelC I p S w0 cs w f kcs) (hop : opAt cs.code cs.st.pc = 0xf0) (hl : ¬ cs.st.stack.length > 1024) :
+    CallCorr I p S w0 cs w f kcs (createOut s o cfg codes cs 0xf0) ∨
+      CreateValueCase I p s o cfg codes cs w f (createOut s o cfg codes cs 0xf0) := by
+  by_cases hv : CreateValueCase I p s o cfg codes cs w f (createOut s o cfg codes cs 0xf0)
+  · exact Or.inr hv
+  · exact Or.inl (createOut_corr_aux hs hmem hdep hcodes hch hv hrel hop hl)
+
+theorem createGoV_off (hb : cfg.balances = false) {op addr : Nat} {fv : T} {rest : List HV} {init : List Nat} :
+    createGoV s o cfg codes cs op addr fv rest init = localStuck cs.st (.unsupported op) := by
+  simp [createGoV, hb]
+
+theorem createGoV_eq {op addr : Nat} {fv : T} {rest : List HV} {init : List Nat} (hbal : cfg.balances = true)
+    (hw : cs.env.address.width = 160) {bc : T} {conds1 : List B}
+    (hbo : balanceOfM s o cfg cs.st.path cs.bal cs.env.address = some (bc, conds1)) :
+    createGoV s o cfg codes cs op addr fv rest init =
+      { next := failNextOf s o cs bc fv conds1 rest ++ (createMain s o cfg codes cs op addr fv rest init bc conds1).next,
+        ends := (createMain s o cfg codes cs op addr fv rest init bc conds1).ends } := by
+  unfold createGoV
+  have h1 : ¬ (!cfg.balances) = true := by simp [hbal]
+  have h3 : ¬ cs.env.address.width ≠ 160 := by simp [hw]
+  simp only [h1, h3, if_false, hbo]
+  rfl
+
+/-- what the main path of a value-bearing CREATE is: the collision successor; an error report; nothing (the sufficiency
+    condition is literally false); or the constructor frame after the conditions `conds2` of the second balance read -/
+theorem createMain_cases (s : Simp) (o : Oracle) (cfg : Cfg) (codes : List (Nat × List Nat)) (cs : CState)
+    (op addr : Nat) (fv : T) (rest : List HV) (init : List Nat) (bc : T) (conds1 : List B) :
+    ((codeOf codes addr).isSome = true ∧ createMain s o cfg codes cs op addr fv rest init bc conds1 =
+        { next := [{ cs with st := { (conds1.foldl (addCond s) cs.st) with pc := cs.st.pc + 1, stack := .bv 256 (.con 0) :: rest, returndata := [] } }] }) ∨
+    (∃ e, createMain s o cfg codes cs op addr fv rest init bc conds1 = { ends := [e] } ∧ e.st = cs.st ∧
+        ∃ r', e.out = .stuck r') ∨
+    ((codeOf codes addr).isSome = false ∧ createMain s o cfg codes cs op addr fv rest init bc conds1 = {} ∧
+        s.b (.cmp .uge bc fv) = .lit false) ∨
+    ((codeOf codes addr).isSome = false ∧ ¬ cs.depth + 1 > 1024 ∧ ∃ (conds2 : List B) (bt : T),
+      balanceOfM s o cfg (addCond s (conds1.foldl (addCond s) cs.st) (s.b (.cmp .uge bc fv))).path
+          ((cs.env.address, .bin .sub bc fv) :: cs.bal) (.lit 160 addr) = some (bt, conds2) ∧
+      createMain s o cfg codes cs op addr fv rest init bc conds1 =
+        { next := [createFrame s { cs with st := mainSt s cs bc fv conds1 conds2,
+                                           bal := (.lit 160 addr, .bin .add bt fv) :: (cs.env.address, .bin .sub bc fv) :: cs.bal }
+                     addr rest init fv cs.bal] }) := by
+  unfold createMain
+  simp only
+  by_cases h4 : (codeOf codes addr).isSome = true
+  · rw [if_pos h4]; exact Or.inl ⟨h4, rfl⟩
+  rw [if_neg h4]
+  have h4' : (codeOf codes addr).isSome = false := by simpa using h4
+  by_cases h5 : cs.depth + 1 > 1024
+  · rw [if_pos h5]; exact Or.inr (Or.inl ⟨_, rfl, rfl, _, rfl⟩)
+  rw [if_neg h5]
+  by_cases hf : s.b (.cmp .uge bc fv) = .lit false
+  · rw [if_pos hf]; exact Or.inr (Or.inr (Or.inl ⟨h4', rfl, hf⟩))
+  rw [if_neg hf]
+  unfold transferM
+  simp only
+  cases hbo : balanceOfM s o cfg (addCond s (conds1.foldl (addCond s) cs.st) (s.b (.cmp .uge bc fv))).path
+      ((cs.env.address, .bin .sub bc fv) :: cs.bal) (.lit 160 addr) with
+  | none => exact Or.inr (Or.inl ⟨_, rfl, rfl, _, rfl⟩)
+  | some bc2 =>
+    obtain ⟨bt, conds2⟩ := bc2
+    exact Or.inr (Or.inr (Or.inr ⟨h4', h5, conds2, bt, rfl, rfl⟩))
+
+variable {op t v : Nat} {fv : T} {ao al ro rl : Nat} {rest : List HV} {f1t : Evm.Frame} {bc : T} {conds1 : List B}
+
+/-- the collision successor of a value-bearing CREATE against the reference's creator going on with 0 -/
+theorem ValueCtx.collide_rel (hs : SimpSound s)
+    (hx : ValueCtx I p S w0 s cs w f kcs op t v fv ao al ro rl rest f1t bc conds1) :
+    RelC I p S w0
+      { cs with st := { (conds1.foldl (addCond s) cs.st) with
+                          pc := cs.st.pc + 1, stack := .bv 256 (.con 0) :: rest, returndata := [] } }
+      w (failFrame f1t) kcs := by
+  obtain ⟨c1, c2, c3, c4, c5, c6, c7⟩ := hx.ectx
+  refine hx.hrel.withConds hs hx.hc1 (X := cs.st)
+    (st' := { (conds1.foldl (addCond s) cs.st) with
+                pc := cs.st.pc + 1, stack := .bv 256 (.con 0) :: rest, returndata := [] })
+    rfl rfl rfl rfl ⟨_, rfl, rfl, rfl, rfl, rfl⟩
+    ⟨c1, c2, c3, c4, c5, c6, c7⟩ ?_ ?_ ?_ (MemRel.nil I)
+  · show f1t.pc + 1 = cs.st.pc + 1
+    rw [hx.epc, hx.hrel.hR.pc]
+  · exact StackRel.cons (wordRel_con (by norm_num)) hx.hRk.stack
+  · show MemRel I (conds1.foldl (addCond s) cs.st).mem f1t.mem
+    rw [addConds_mem, hx.emem]; exact hx.hrel.hR.mem
+
+/-- the constructor frame of the main path -/
+theorem ValueCtx.create_frame (hs : SimpSound s)
+    (hx : ValueCtx I p S w0 s cs w f kcs op t v fv ao al ro rl rest f1t bc conds1) {conds2 : List B}
+    (hc2 : ∀ c ∈ conds2, c.WF) {wT : Evm.World} {bal' : List (T × T)}
+    (hWT : WRelM I S (wd w0 ((t, []) :: cs.created) cs.nonce) wT (fun b => if b = t then {} else viewOf cs b)
+      (evalLogs I cs.logs) (balSem I w0 bal')) (hwf : ChainWF bal') (haS : S t) {init : List Nat}
+    (hinit : ∀ b ∈ init, b < 256) :
+    RelC I p S w0
+      (createFrame s { cs with st := mainSt s cs bc fv conds1 conds2, bal := bal' } t rest init fv cs.bal)
+      wT (createFrameC f1t t v init) (⟨w, f1t, 0, 0, some t⟩ :: kcs) := by
+  obtain ⟨c1, c2, c3, c4, c5, c6, c7⟩ := hx.ectx
+  have h1 : RelC I p S w0 { cs with st := { (mainSt s cs bc fv conds1 conds2) with stack := rest } } w f1t kcs := by
+    refine hx.hrel.withConds hs (hx.main_wf hs hc2) (X := cs.st) rfl rfl rfl rfl
+      ⟨_, rfl, by rw [mainSt_eq], by rw [mainSt_eq], by rw [mainSt_eq], by rw [mainSt_eq]⟩
+      ⟨c1, c2, c3, c4, c5, c6, c7⟩ ?_ hx.hRk.stack ?_ ?_
+    · show f1t.pc = (mainSt s cs bc fv conds1 conds2).pc
+      rw [mainSt_eq, addConds_pc]; exact hx.hRk.pc
+    · show MemRel I (mainSt s cs bc fv conds1 conds2).mem f1t.mem
+      rw [mainSt_eq, addConds_mem]; exact hx.hRk.mem
+    · show MemRel I (mainSt s cs bc fv conds1 conds2).returndata f1t.returndata
+      rw [mainSt_eq, addConds_returndata]; exact hx.hRk.retdata
+  have hview : ∀ a, viewOf { cs with st := mainSt s cs bc fv conds1 conds2, bal := bal' } a = viewOf cs a := by
+    intro a
+    simp only [viewOf, mainSt_eq, (addConds_storage s _ cs.st).1, (addConds_storage s _ cs.st).2]
+  exact relC_create (csx := { cs with st := mainSt s cs bc fv conds1 conds2, bal := bal' }) hs h1.hR
+    (c4.trans hx.hrel.this) hx.hrel.inS (c7.trans hx.hrel.depth) hx.hrel.hcode
+    (hWT.congr (fun a _ => by by_cases e : a = t <;> simp [e, hview])) hwf hx.hrel.hcr
+    (hx.hrel.hW.congr (fun a _ => hview a)) hx.hrel.hbal hx.hrel.conts hx.ht haS hinit
+    ⟨hx.hfv.1, by rw [hx.hfv.2.1], hx.hfv.2.2⟩
+
+end
+
+section
+variable {I : Interp} {p : Evm.Params} {S : Nat → Prop} {w0 : Evm.World}
+variable {cs : CState} {w : Evm.World} {f : Evm.Frame} {kcs : List CCont}
+variable {s : Simp} {o : Oracle} {cfg : Cfg} {codes : List (Nat × List Nat)}
+
+/-- the creator with the attempt counted / the world with the address handed out / the address -/
+abbrev crCs (cs : CState) : CState := { cs with nonce := cs.nonce + 1 }
+abbrev crW (w : Evm.World) : Evm.World := { w with created := w.created + 1 }
+abbrev crAddr (cfg : Cfg) (cs : CState) : Nat := (cfg.allocBase + (cs.nonce + 1)) % 2 ^ 160
+
+/-- counting the attempt on both sides -/
+theorem RelC.bump (hrel : RelC I p S w0 cs w f kcs) : RelC I p S w0 (crCs cs) (crW w) f kcs := by
+  have hcrw : w.created = w0.created + cs.nonce := hrel.hW.created
+  have hw0' : crW w = { w with created := w0.created + (cs.nonce + 1) } := by
+    show ({ w with created := w.created + 1 } : Evm.World) = _
+    rw [hcrw, Nat.add_assoc]
+  refine ⟨hrel.hR, hrel.this, hrel.inS, hrel.depth, hrel.hcode, ?_, hrel.hbal, hrel.hcr, hrel.conts⟩
+  rw [hw0']; exact hrel.hW.setCreated _
+
+/-- a value-bearing CREATE, decoded: an end about which nothing is claimed, or the two parts with everything known
+    (`ValueCtx` for the creator with the attempt counted, as for a CALL to the new address) -/
+theorem createValue_ctx (hs : SimpSound s) (ho : OracleSound o) (hb : BalHyp I cfg w0) (hbal : cfg.balances = true)
+    (hrel : RelC I p S w0 cs w f kcs) (hsat : Sat I cs.st.path) {lo : LocalOut}
+    (hv : CreateValueCase I p s o cfg codes cs w f lo) :
+    (∃ e, lo = { ends := [e] } ∧ e.st = cs.st ∧ ((∃ r', e.out = .stuck r') ∨ e.tag ≠ .normal)) ∨
+    ∃ (v : Nat) (fv : T) (off len : Nat) (rest : List HV) (crest : List Nat) (init : List Nat) (bc : T)
+      (conds1 : List B),
+      lo = { next := failNextOf s o (crCs cs) bc fv conds1 rest ++
+                       (createMain s o cfg codes (crCs cs) 0xf0 (crAddr cfg cs) fv rest init bc conds1).next,
+             ends := (createMain s o cfg codes (crCs cs) 0xf0 (crAddr cfg cs) fv rest init bc conds1).ends } ∧
+      ValueCtx I p S w0 s (crCs cs) (crW w) f kcs 0xf1 (crAddr cfg cs) v fv off len 0 0 rest
+        (({ f with stack := crest } : Evm.Frame).touch off len) bc conds1 ∧
+      Evm.step p w f = .create 0xf0 w { f with stack := crest } v off len 0 ∧ Evm.memOk p off len = true ∧
+      Evm.readBytes f.mem off len = init ∧ (∀ b ∈ init, b < 256) := by
+  obtain ⟨v, fv, off, len, rest, crest, init, rfl, hrest, f1, f2, f3, hstep, hm, hinit, hib, hns⟩ := hv
+  by_cases hw : cs.env.address.width = 160
+  swap
+  · unfold createGoV
+    have h1 : ¬ (!cfg.balances) = true := by simp [hbal]
+    have hw' : cs.env.address.width ≠ 160 := hw
+    simp only [h1, if_false, hw', ne_eq, not_false_eq_true, if_true]
+    exact Or.inl ⟨_, rfl, rfl, Or.inl ⟨_, rfl⟩⟩
+  have hR := hrel.hR
+  have hme : cs.env.address.WF ∧ cs.env.address.width = 160 ∧ cs.env.address.eval I = f.this :=
+    ⟨hR.env.address.1, hw, hR.env.address.2.2⟩
+  cases hbo : balanceOfM s o cfg cs.st.path cs.bal cs.env.address with
+  | none =>
+    unfold createGoV
+    have h1 : ¬ (!cfg.balances) = true := by simp [hbal]
+    have hw' : ¬ cs.env.address.width ≠ 160 := by simp [hw]
+    simp only [h1, if_false, hw', hbo]
+    exact Or.inl ⟨_, rfl, rfl, Or.inl ⟨_, rfl⟩⟩
+  | some bcc =>
+    obtain ⟨bc, conds1⟩ := bcc
+    obtain ⟨b1, b2, b3, cwf, ctrue⟩ := balanceOfM_ok hs ho hb hsat hrel.hbal hme.1 hme.2.1 hbo
+    rw [hme.2.2, ← hrel.hW.bal f.this] at b3 ctrue
+    refine Or.inr ⟨v, fv, off, len, rest, crest, init, bc, conds1,
+      createGoV_eq (cs := crCs cs) hbal hw hbo, ?_, hstep, hm, hinit, hib⟩
+    generalize hg : (({ f with stack := crest } : Evm.Frame).touch off len) = g
+    have e_code : g.code = f.code := by rw [← hg, touch_code]
+    have e_caller : g.caller = f.caller := by rw [← hg, touch_caller]
+    have e_value : g.value = f.value := by rw [← hg, touch_value]
+    have e_this : g.this = f.this := by rw [← hg, touch_this]
+    have e_cd : g.calldata = f.calldata := by rw [← hg, touch_calldata]
+    have e_static : g.isStatic = f.isStatic := by rw [← hg, touch_isStatic]
+    have e_rd : g.returndata = f.returndata := by rw [← hg, touch_returndata]
+    have e_mem : g.mem = f.mem := by rw [← hg, touch_mem]
+    have e_pc : g.pc = f.pc := by rw [← hg, touch_pc]
+    have e_depth : g.depth = f.depth := by rw [← hg, touch_depth]
+    have hRk : R I cs.env cs.code p { cs.st with stack := rest } g :=
+      hR.next' ⟨e_code, e_caller, e_value, e_this, e_cd, e_static, e_rd⟩ rfl rfl rfl e_mem rfl
+        (by rw [e_pc]; exact hR.pc) (by rw [← hg, touch_stack]; exact hrest)
+    refine ⟨hrel.bump, hsat, Or.inl rfl, Nat.mod_lt _ (by norm_num), ⟨f1, f2, f3⟩, hme, ⟨b1, b2, b3⟩, cwf,
+      fun hbb => ctrue (hbb.le _), hRk, ⟨e_code, e_caller, e_value, e_this, e_cd, e_static, e_depth⟩, e_pc, e_mem, ?_⟩
+    rw [e_static, hns]; simp
+
+variable {v : Nat} {fv : T} {off len : Nat} {rest : List HV} {bc : T} {conds1 : List B}
+
+/-- the constructor frame of a value-bearing CREATE against the reference: related, and with the same completions -/
+theorem ValueCtx.create_ok (hs : SimpSound s) (ho : OracleSound o) (hb : BalHyp I cfg w0) (hdep : 1024 ≤ p.maxDepth)
+    (hcodes : ∀ a, w.codeOf a = codeOf codes a) (hch : CreateHyp cfg p S w0) (hcr : cfg.create = true)
+    (hrel : RelC I p S w0 cs w f kcs) {crest : List Nat}
+    (hx : ValueCtx I p S w0 s (crCs cs) (crW w) f kcs 0xf1 (crAddr cfg cs) v fv off len 0 0 rest
+      (({ f with stack := crest } : Evm.Frame).touch off len) bc conds1)
+    (hstep : Evm.step p w f = .create 0xf0 w { f with stack := crest } v off len 0)
+    (hm : Evm.memOk p off len = true) {init : List Nat} (hinit : Evm.readBytes f.mem off len = init)
+    (hib : ∀ b ∈ init, b < 256) (h4 : (codeOf codes (crAddr cfg cs)).isSome = false) (h5 : ¬ cs.depth + 1 > 1024)
+    (hle : v ≤ w.balanceOf f.this)
+    (hsat2 : Sat I (addCond s (conds1.foldl (addCond s) cs.st) (s.b (.cmp .uge bc fv))).path)
+    {conds2 : List B} {bt : T}
+    (hbo : balanceOfM s o cfg (addCond s (conds1.foldl (addCond s) cs.st) (s.b (.cmp .uge bc fv))).path
+      ((cs.env.address, .bin .sub bc fv) :: cs.bal) (.lit 160 (crAddr cfg cs)) = some (bt, conds2)) :
+    (∀ c ∈ conds2, c.WF) ∧ (BalBound w → ∀ c ∈ conds2, c.eval I = true) ∧
+    ∃ w' f' kcs', RelC I p S w0
+        (createFrame s { (crCs cs) with st := mainSt s (crCs cs) bc fv conds1 conds2, bal := (.lit 160 (crAddr cfg cs), .bin .add bt fv) :: (cs.env.address, .bin .sub bc fv) :: cs.bal }
+          (crAddr cfg cs) rest init fv cs.bal) w' f' kcs' ∧
+      (∀ r, RunStack p w f kcs r ↔ RunStack p w' f' kcs' r) ∧ (BBAllT w kcs → BBAllT w' kcs') := by
+  obtain ⟨hal, hSa, hb0⟩ := hch hcr
+  obtain ⟨hc2, hwf, hWTc, hc2t, hbbT⟩ := hx.main_world hs ho hb (t := crAddr cfg cs) hle hsat2
+    (Or.inl ⟨rfl, bt, hbo, rfl⟩)
+  have hbw : ∀ a, w.balanceOf a < 2 ^ 256 := fun a => by
+    rw [hrel.hW.bal]; exact balSem_lt_base hb0 hrel.hbal a
+  obtain ⟨c1, c2, c3, c4, c5, c6, c7⟩ := hx.ectx
+  generalize hg : (({ f with stack := crest } : Evm.Frame).touch off len) = g at *
+  have hcrw : w.created = w0.created + cs.nonce := hrel.hW.created
+  have haddr : p.newAddress (w.created + 1) = crAddr cfg cs := by
+    rw [hcrw, Nat.add_assoc]; exact hal _
+  have hfund' : ¬ w.balanceOf g.this < v := by rw [c4]; omega
+  have hd : ¬ g.depth + 1 > p.maxDepth := by rw [c7, hrel.depth]; omega
+  have hcol : ((crW w).codeOf (p.newAddress (w.created + 1))).isSome = false := by
+    rw [haddr]; show (w.codeOf _).isSome = false; rw [hcodes]; exact h4
+  have hiff := fun r => runStack_push (p := p)
+    (halts_create hstep hm (by rw [hg]; exact hfund') (by rw [hg]; exact hd) hcol) kcs r
+  rw [hg, haddr] at hiff
+  have hinit' : Evm.readBytes g.mem off len = init := by rw [hx.emem]; exact hinit
+  rw [hinit'] at hiff
+  -- the balances of the world the constructor starts in are those after the transfer of a CALL
+  have hbeq : ∀ a, (createWorld (crW w) g.this (crAddr cfg cs) v).balanceOf a =
+      (callWorld 0xf1 (crW w) f.this (crAddr cfg cs) v).balanceOf a := by
+    intro a
+    show (((crW w).setCode (crAddr cfg cs) []).transfer g.this (crAddr cfg cs) v).balanceOf a = _
+    rw [balanceOf_transfer, c4]
+    have hb' : ∀ x, ((crW w).setCode (crAddr cfg cs) []).balanceOf x = w.balanceOf x := fun _ => rfl
+    have hb'' : ∀ x, (crW w).balanceOf x = w.balanceOf x := fun _ => rfl
+    simp only [hb']
+    by_cases hv0 : v = 0
+    · subst hv0
+      have : callWorld 0xf1 (crW w) f.this (crAddr cfg cs) 0 = crW w := by simp [callWorld]
+      rw [this, hb'']
+      simp only [Nat.sub_zero, Nat.add_zero]
+      split
+      · rename_i e
+        subst e
+        split
+        · rename_i e'; rw [← e']; exact Nat.mod_eq_of_lt (hbw _)
+        · exact Nat.mod_eq_of_lt (hbw _)
+      · split
+        · rename_i e; rw [e]
+        · rfl
+    · have : callWorld 0xf1 (crW w) f.this (crAddr cfg cs) v = (crW w).transfer f.this (crAddr cfg cs) v := by
+        simp [callWorld, hv0]
+      rw [this, balanceOf_transfer]
+      simp only [hb'']
+  refine ⟨hc2, fun hbb => hc2t (hbb.congr (fun a => rfl)), _, _, _,
+    hx.create_frame hs hc2 (hx.hrel.hW.createWorld (hSa _) (fun a => (hbeq a).trans (hWTc.bal a))) hwf (hSa _) hib,
+    hiff, fun hbb => ⟨((hbbT (hbb.1.congr (fun a => rfl))).congr hbeq), fun kc hm' => by
+      rcases List.mem_cons.1 hm' with rfl | hm'
+      · exact hbb.1.congr (fun a => rfl)
+      · exact hbb.2 kc hm'⟩⟩
 
 end
 
@@ -2258,6 +2560,121 @@ theorem balOut_shape : LocalShape cs (balOut s o cfg cs op) := by
 
 end
 
+/-! ### what does not touch the created accounts, relation-free -/
+
+/-- every successor keeps the created accounts and the attempt counter, and a suspended caller it pushes is a message
+    call that has saved the created accounts (everything the frame-stack machine decodes itself but CREATE) -/
+def LocalCr (cs : CState) (lo : LocalOut) : Prop :=
+  ∀ c ∈ lo.next, c.created = cs.created ∧ c.nonce = cs.nonce ∧
+    (c.conts = cs.conts ∨ ∃ k, c.conts = k :: cs.conts ∧ k.snapCreated = cs.created ∧ k.create = none)
+
+theorem localCr_end {cs : CState} {es : List EndState} : LocalCr cs { ends := es } :=
+  fun c hc => by simp at hc
+
+theorem localCr_next {cs cs' : CState}
+    (h : cs'.created = cs.created ∧ cs'.nonce = cs.nonce ∧
+      (cs'.conts = cs.conts ∨ ∃ k, cs'.conts = k :: cs.conts ∧ k.snapCreated = cs.created ∧ k.create = none)) :
+    LocalCr cs { next := [cs'] } :=
+  fun c hc => by rw [List.mem_singleton.1 hc]; exact h
+
+theorem localCr_lift {cs : CState} {out : StepOut} : LocalCr cs (liftOut cs out) := by
+  intro c hc
+  obtain ⟨st', _, rfl⟩ := List.mem_map.1 hc
+  exact ⟨rfl, rfl, Or.inl rfl⟩
+
+section
+variable {s : Simp} {o : Oracle} {cfg : Cfg} {codes : List (Nat × List Nat)} {cs : CState} {op t : Nat}
+variable {fund : Option T}
+
+macro "cr_leaf" : tactic =>
+  `(tactic| first
+    | exact localCr_end
+    | exact localCr_next ⟨rfl, rfl, Or.inl rfl⟩
+    | exact localCr_next ⟨rfl, rfl, Or.inr ⟨_, rfl, rfl, rfl⟩⟩)
+
+theorem callGoV_cr {fv : T} {ao al ro rl : Nat} {rest : List HV} :
+    LocalCr cs (callGoV s o cfg codes cs op t fv ao al ro rl rest) := by
+  by_cases hbal : cfg.balances = true
+  swap
+  · unfold callGoV
+    have : (!cfg.balances) = true := by simpa using hbal
+    simp only [this, if_true]; exact localCr_end
+  by_cases hst : cs.env.isStatic = true ∧ op = 0xf1
+  · unfold callGoV
+    have : ¬ (!cfg.balances) = true := by simp [hbal]
+    simp only [this, if_false, hst, and_self, if_true]; exact localCr_end
+  by_cases hw : cs.env.address.width = 160
+  swap
+  · unfold callGoV
+    have : ¬ (!cfg.balances) = true := by simp [hbal]
+    have hw' : cs.env.address.width ≠ 160 := hw
+    simp only [this, if_false, hst, hw', ne_eq, not_false_eq_true, if_true]; exact localCr_end
+  cases hbo : balanceOfM s o cfg cs.st.path cs.bal cs.env.address with
+  | none =>
+    unfold callGoV
+    have : ¬ (!cfg.balances) = true := by simp [hbal]
+    have hw' : ¬ cs.env.address.width ≠ 160 := by simp [hw]
+    simp only [this, if_false, hst, hw', hbo]; exact localCr_end
+  | some bcc =>
+    obtain ⟨bc, conds1⟩ := bcc
+    rw [callGoV_eq hbal hst hw hbo]
+    intro c hc
+    rcases List.mem_append.1 hc with hc | hc
+    · unfold failNextOf at hc
+      split at hc
+      · simp at hc
+      · rw [List.mem_singleton.1 hc]
+        exact ⟨rfl, rfl, Or.inl rfl⟩
+    · rcases mainOf_cases s o cfg codes cs op t fv ao al ro rl rest bc conds1 with
+        ⟨e, he, _⟩ | ⟨he, _⟩ | ⟨conds2, bal', _, _, hcode⟩
+      · rw [he] at hc; simp at hc
+      · rw [he] at hc; simp at hc
+      · rcases hcode with ⟨_, he⟩ | ⟨prog, _, he⟩
+        · rw [he] at hc
+          rw [List.mem_singleton.1 hc]
+          exact ⟨rfl, rfl, Or.inl rfl⟩
+        · rw [he] at hc
+          rw [List.mem_singleton.1 hc]
+          exact ⟨rfl, rfl, Or.inr ⟨_, rfl, rfl, rfl⟩⟩
+
+theorem callGo_cr {ao al ro rl : Nat} {rest : List HV} :
+    LocalCr cs (callGo s o cfg codes cs op t fund ao al ro rl rest) := by
+  unfold callGo
+  simp only
+  (repeat' split) <;> first | cr_leaf | exact callGoV_cr
+
+theorem callArgs_cr {r : List HV} : LocalCr cs (callArgs s o cfg codes cs op t fund r) := by
+  unfold callArgs
+  simp only
+  (repeat' split) <;> first | cr_leaf | exact callGo_cr
+
+theorem callOut_cr : LocalCr cs (callOut s o cfg codes cs op) := by
+  unfold callOut
+  simp only
+  (repeat' split) <;> first | cr_leaf | exact callArgs_cr
+
+theorem logOut_cr : LocalCr cs (logOut s cfg cs op) := by
+  unfold logOut
+  simp only
+  (repeat' split) <;> cr_leaf
+
+theorem extOut_cr : LocalCr cs (extOut s cfg codes cs op) := by
+  unfold extOut
+  simp only
+  (repeat' split) <;> first | cr_leaf | exact localCr_lift
+
+theorem shaOut_cr : LocalCr cs (shaOut s cfg cs op) := by
+  unfold shaOut
+  simp only
+  (repeat' split) <;> cr_leaf
+
+theorem balOut_cr : LocalCr cs (balOut s o cfg cs op) := by
+  unfold balOut
+  simp only
+  (repeat' split) <;> cr_leaf
+
+end
+
 /-! ### one step of the frame-stack machine -/
 
 theorem isCallOp_iff (op : Nat) : isCallOp op = true ↔ (op = 0xf1 ∨ op = 0xf2 ∨ op = 0xf4 ∨ op = 0xfa) := by
@@ -2271,13 +2688,61 @@ theorem createOut_off (hnc : cfg.create = false) {codes' : List (Nat × List Nat
     createOut s o cfg codes' cs op = localStuck cs.st (.unsupported op) := by
   simp [createOut, hnc]
 
-theorem createOut_shape (hcp : cfg.create = false ∨ cfg.balances = false) {codes' : List (Nat × List Nat)} :
-    LocalShape cs (createOut s o cfg codes' cs op) := by
-  rcases hcp with hnc | hboff
-  · rw [createOut_off hnc]; exact localShape_end rfl
-  · unfold createOut
-    simp only [hboff, Bool.not_false, if_true]
-    (repeat' split) <;> shape_leaf
+theorem createGoV_shape {addr : Nat} {fv : T} {rest : List HV} {init : List Nat} :
+    LocalShape cs (createGoV s o cfg codes cs op addr fv rest init) := by
+  by_cases hbal : cfg.balances = true
+  swap
+  · rw [createGoV_off (by simpa using hbal)]; exact localShape_end rfl
+  by_cases hw : cs.env.address.width = 160
+  swap
+  · unfold createGoV
+    have : ¬ (!cfg.balances) = true := by simp [hbal]
+    have hw' : cs.env.address.width ≠ 160 := hw
+    simp only [this, if_false, hw', ne_eq, not_false_eq_true, if_true]; exact localShape_end rfl
+  cases hbo : balanceOfM s o cfg cs.st.path cs.bal cs.env.address with
+  | none =>
+    unfold createGoV
+    have : ¬ (!cfg.balances) = true := by simp [hbal]
+    have hw' : ¬ cs.env.address.width ≠ 160 := by simp [hw]
+    simp only [this, if_false, hw', hbo]; exact localShape_end rfl
+  | some bcc =>
+    obtain ⟨bc, conds1⟩ := bcc
+    rw [createGoV_eq hbal hw hbo]
+    refine ⟨fun c hc => ?_, fun e he => ?_⟩
+    · rcases List.mem_append.1 hc with hc | hc
+      · unfold failNextOf at hc
+        split at hc
+        · simp at hc
+        · rw [List.mem_singleton.1 hc]
+          refine ⟨?_, Or.inl rfl⟩
+          obtain ⟨e1, h1⟩ := addConds_path_ext s conds1 cs.st
+          obtain ⟨e2, h2⟩ := addCond_path_ext s (conds1.foldl (addCond s) cs.st) (s.b (.cmp .ult bc fv))
+          exact ⟨e1 ++ e2, by show (addCond s _ _).path = _; rw [h2, h1, List.append_assoc]⟩
+      · rcases createMain_cases s o cfg codes cs op addr fv rest init bc conds1 with
+          ⟨_, he⟩ | ⟨e, he, _⟩ | ⟨_, he, _⟩ | ⟨_, _, conds2, bt, _, he⟩
+        · rw [he] at hc
+          rw [List.mem_singleton.1 hc]
+          exact ⟨addConds_path_ext s conds1 cs.st, Or.inl rfl⟩
+        · rw [he] at hc; simp at hc
+        · rw [he] at hc; simp at hc
+        · rw [he] at hc
+          rw [List.mem_singleton.1 hc]
+          refine ⟨?_, Or.inr ⟨_, rfl⟩⟩
+          show ∃ ext, (mainSt s cs bc fv conds1 conds2).path = cs.st.path ++ ext
+          rw [mainSt_eq]; exact addConds_path_ext s _ cs.st
+    · rcases createMain_cases s o cfg codes cs op addr fv rest init bc conds1 with
+        ⟨_, he0⟩ | ⟨e0, he0, hst0, _⟩ | ⟨_, he0, _⟩ | ⟨_, _, conds2, bt, _, he0⟩
+      · rw [he0] at he; simp at he
+      · rw [he0] at he; rw [List.mem_singleton.1 he, hst0]
+      · rw [he0] at he; simp at he
+      · rw [he0] at he; simp at he
+
+theorem createOut_shape {codes' : List (Nat × List Nat)} : LocalShape cs (createOut s o cfg codes' cs op) := by
+  unfold createOut
+  simp only
+  (repeat' split) <;> first
+    | shape_leaf
+    | exact createGoV_shape (cs := { cs with nonce := cs.nonce + 1 }) (codes := codes')
 
 /-- `stepC` is `finish` of an instruction it decodes itself, or of the per-frame step (with its stack limit) -/
 theorem stepC_eq :
@@ -2302,11 +2767,10 @@ theorem stepC_eq :
   · simp only [hl, if_false, not_false_eq_true, true_and]
 
 /-- the local output `stepC` finishes, with its shape -/
-theorem stepC_local (hcp : cfg.create = false ∨ cfg.balances = false) :
-    ∃ lo, stepC s o cfg codes cs = finish cs lo ∧ LocalShape cs lo := by
+theorem stepC_local : ∃ lo, stepC s o cfg codes cs = finish cs lo ∧ LocalShape cs lo := by
   rw [stepC_eq]
   split
-  · exact ⟨_, rfl, createOut_shape hcp⟩
+  · exact ⟨_, rfl, createOut_shape⟩
   split
   · exact ⟨_, rfl, callOut_shape⟩
   · split
@@ -2321,28 +2785,28 @@ theorem stepC_local (hcp : cfg.create = false ∨ cfg.balances = false) :
             obtain ⟨st', hm', rfl⟩ := List.mem_map.1 hc
             exact ⟨stepL_next_path hm', Or.inl rfl⟩
 
-theorem stepC_next_path (hnc : cfg.create = false ∨ cfg.balances = false) {cs' : CState}
+theorem stepC_next_path {cs' : CState}
     (h : cs' ∈ (stepC s o cfg codes cs).next) :
     ∃ ext, cs'.st.path = cs.st.path ++ ext := by
-  obtain ⟨lo, e, hsh⟩ := stepC_local (s := s) (o := o) (cfg := cfg) (codes := codes) (cs := cs) hnc
+  obtain ⟨lo, e, hsh⟩ := stepC_local (s := s) (o := o) (cfg := cfg) (codes := codes) (cs := cs)
   rw [e] at h
   rcases mem_finish_next_shape h with hm | ⟨e', he', hp, _⟩
   · exact (hsh.1 cs' hm).1
   · exact ⟨[], by rw [hp, hsh.2 e' he']; simp⟩
 
-theorem stepC_end_path (hnc : cfg.create = false ∨ cfg.balances = false) {ce : CEnd}
+theorem stepC_end_path {ce : CEnd}
     (h : ce ∈ (stepC s o cfg codes cs).ends) : ce.e.st.path = cs.st.path := by
-  obtain ⟨lo, e, hsh⟩ := stepC_local (s := s) (o := o) (cfg := cfg) (codes := codes) (cs := cs) hnc
+  obtain ⟨lo, e, hsh⟩ := stepC_local (s := s) (o := o) (cfg := cfg) (codes := codes) (cs := cs)
   rw [e] at h
   obtain ⟨e', hm, hp⟩ := mem_finish_ends_shape h
   rw [hp]; exact hsh.2 e' hm
 
 /-- the stack discipline of the suspended callers: a step keeps them, pushes one (a call) or pops one (a return);
     it never touches a suspended caller — in particular not its snapshot -/
-theorem stepC_conts (hnc : cfg.create = false ∨ cfg.balances = false) {cs' : CState}
+theorem stepC_conts {cs' : CState}
     (h : cs' ∈ (stepC s o cfg codes cs).next) :
     cs'.conts = cs.conts ∨ (∃ k, cs'.conts = k :: cs.conts) ∨ (∃ k, cs.conts = k :: cs'.conts) := by
-  obtain ⟨lo, e, hsh⟩ := stepC_local (s := s) (o := o) (cfg := cfg) (codes := codes) (cs := cs) hnc
+  obtain ⟨lo, e, hsh⟩ := stepC_local (s := s) (o := o) (cfg := cfg) (codes := codes) (cs := cs)
   rw [e] at h
   rcases mem_finish_next_shape h with hm | ⟨e', _, _, k, hc⟩
   · rcases (hsh.1 cs' hm).2 with h1 | h1
@@ -2546,6 +3010,142 @@ theorem callGo_some_off (hbal : ¬ cfg.balances = true) {op t : Nat} {fv : T} {a
   simp only [this, if_true]
   exact Or.inl ⟨_, rfl, rfl, Or.inl ⟨_, rfl⟩⟩
 
+section
+variable {I : Interp} {p : Evm.Params} {S : Nat → Prop} {w0 : Evm.World}
+variable {cs : CState} {w : Evm.World} {f : Evm.Frame} {kcs : List CCont}
+variable {s : Simp} {o : Oracle} {cfg : Cfg} {codes : List (Nat × List Nat)}
+
+/-- the reference's CREATE is not carried out: the creator goes on with 0 in the world with the address handed out -/
+theorem runStack_create_fail {crest : List Nat} {v off len : Nat}
+    (hstep : Evm.step p w f = .create 0xf0 w { f with stack := crest } v off len 0)
+    (hm : Evm.memOk p off len = true)
+    (hc : w.balanceOf (({ f with stack := crest } : Evm.Frame).touch off len).this < v ∨
+      (({ f with stack := crest } : Evm.Frame).touch off len).depth + 1 > p.maxDepth ∨
+      ((crW w).codeOf (p.newAddress (w.created + 1))).isSome = true) (r : Evm.World × Evm.Halt) :
+    RunStack p w f kcs r ↔
+      RunStack p (crW w) (failFrame (({ f with stack := crest } : Evm.Frame).touch off len)) kcs r :=
+  runStack_of_halts (halts_create_fail hstep hm hc) kcs r
+
+/-- **a value-bearing CREATE, soundness.** -/
+theorem createValue_sound (hs : SimpSound s) (ho : OracleSound o) (hb : BalHyp I cfg w0)
+    (hdep : 1024 ≤ p.maxDepth) (hcodes : ∀ a, w.codeOf a = codeOf codes a) (hch : CreateHyp cfg p S w0)
+    (hcr : cfg.create = true) (hbal : cfg.balances = true)
+    (hrel : RelC I p S w0 cs w f kcs) (hsat : Sat I cs.st.path) {lo : LocalOut}
+    (hv : CreateValueCase I p s o cfg codes cs w f lo) : LocalSound I p S w0 cs w f kcs lo := by
+  rcases createValue_ctx hs ho hb hbal hrel hsat hv with hno |
+    ⟨v, fv, off, len, rest, crest, init, bc, conds1, rfl, hx, hstep, hm, hinit, hib⟩
+  · exact CallCorr.sound (Or.inl hno)
+  obtain ⟨hal, hSa, hb0⟩ := hch hcr
+  have hcrw : w.created = w0.created + cs.nonce := hrel.hW.created
+  have haddr : p.newAddress (w.created + 1) = crAddr cfg cs := by
+    rw [hcrw, Nat.add_assoc]; exact hal _
+  have e_this := hx.ectx.2.2.2.1
+  refine ⟨fun cs' hm' hsat' => ?_, fun e hm' => ?_⟩
+  · rcases List.mem_append.1 hm' with hm' | hm'
+    · -- the insufficient-funds branch
+      unfold failNextOf at hm'
+      split at hm'
+      · simp at hm'
+      · rw [List.mem_singleton.1 hm'] at hsat' ⊢
+        have hins := ((addCond_sat hs (hx.insuff_ok hs).1).1 hsat').2
+        rw [(hx.insuff_ok hs).2] at hins
+        have hlt : w.balanceOf f.this < v := by
+          have h' : (crW w).balanceOf f.this < v := by simpa using hins
+          exact h'
+        exact ⟨crW w, _, kcs, hx.fail_rel hs,
+          fun r hr => (runStack_create_fail hstep hm (Or.inl (by rw [e_this]; exact hlt)) r).2 hr⟩
+    · rcases createMain_cases s o cfg codes (crCs cs) 0xf0 (crAddr cfg cs) fv rest init bc conds1 with
+        ⟨h4, he⟩ | ⟨e, he, _⟩ | ⟨_, he, _⟩ | ⟨h4, h5, conds2, bt, hbo, he⟩
+      · -- the address is taken
+        rw [he] at hm'
+        rw [List.mem_singleton.1 hm']
+        have hcol : ((crW w).codeOf (p.newAddress (w.created + 1))).isSome = true := by
+          rw [haddr]; show (w.codeOf _).isSome = true; rw [hcodes]; exact h4
+        exact ⟨crW w, _, kcs, hx.collide_rel hs,
+          fun r hr => (runStack_create_fail hstep hm (Or.inr (Or.inr hcol)) r).2 hr⟩
+      · rw [he] at hm'; simp at hm'
+      · rw [he] at hm'; simp at hm'
+      · rw [he] at hm'
+        rw [List.mem_singleton.1 hm'] at hsat' ⊢
+        have hsatM : Sat I (mainSt s (crCs cs) bc fv conds1 conds2).path := hsat'
+        have hsat2 : Sat I (addCond s (conds1.foldl (addCond s) cs.st) (s.b (.cmp .uge bc fv))).path := by
+          obtain ⟨ext, hext⟩ := addConds_path_ext s conds2
+            (addCond s (conds1.foldl (addCond s) cs.st) (s.b (.cmp .uge bc fv)))
+          have : (mainSt s (crCs cs) bc fv conds1 conds2).path = _ := hext
+          rw [this] at hsatM
+          exact (sat_append.1 hsatM).1
+        have hsuf := ((addCond_sat hs (hx.suff_ok hs).1).1 hsat2).2
+        rw [(hx.suff_ok hs).2] at hsuf
+        have hle : v ≤ w.balanceOf f.this := by
+          have h' : v ≤ (crW w).balanceOf f.this := by simpa using hsuf
+          exact h'
+        obtain ⟨_, _, w', f', kcs', hrel', hiff, _⟩ :=
+          hx.create_ok hs ho hb hdep hcodes hch hcr hrel hstep hm hinit hib h4 h5 hle hsat2 hbo
+        exact ⟨w', f', kcs', hrel', fun r hr => (hiff r).2 hr⟩
+  · rcases createMain_cases s o cfg codes (crCs cs) 0xf0 (crAddr cfg cs) fv rest init bc conds1 with
+      ⟨_, he0⟩ | ⟨e0, he0, hst0, r', hr'⟩ | ⟨_, he0, _⟩ | ⟨_, _, conds2, bt, _, he0⟩
+    · rw [he0] at hm'; simp at hm'
+    · rw [he0] at hm'
+      rw [List.mem_singleton.1 hm']
+      refine ⟨by rw [hst0]; exact ⟨rfl, rfl, rfl, rfl⟩, fun _ h ho' => ?_⟩
+      rw [hr'] at ho'; cases ho'
+    · rw [he0] at hm'; simp at hm'
+    · rw [he0] at hm'; simp at hm'
+
+/-- **a value-bearing CREATE, completeness.** -/
+theorem createValue_complete (hs : SimpSound s) (ho : OracleSound o) (hb : BalHyp I cfg w0)
+    (hdep : 1024 ≤ p.maxDepth) (hcodes : ∀ a, w.codeOf a = codeOf codes a) (hch : CreateHyp cfg p S w0)
+    (hcr : cfg.create = true) (hbal : cfg.balances = true)
+    (hrel : RelC I p S w0 cs w f kcs) (hsat : Sat I cs.st.path) {r : Evm.World × Evm.Halt}
+    (hrun : RunStack p w f kcs r) {C : Prop} (hC : C) (hbb : BBAll C w kcs) {lo : LocalOut}
+    (hv : CreateValueCase I p s o cfg codes cs w f lo) : LocalComplete I p S w0 C cs w f r lo := by
+  rcases createValue_ctx hs ho hb hbal hrel hsat hv with hno |
+    ⟨v, fv, off, len, rest, crest, init, bc, conds1, rfl, hx, hstep, hm, hinit, hib⟩
+  · exact CallCorr.complete (Or.inl hno) hrel hsat hrun hbb
+  obtain ⟨hal, hSa, hb0⟩ := hch hcr
+  have hcrw : w.created = w0.created + cs.nonce := hrel.hW.created
+  have haddr : p.newAddress (w.created + 1) = crAddr cfg cs := by
+    rw [hcrw, Nat.add_assoc]; exact hal _
+  have e_this := hx.ectx.2.2.2.1
+  have hbbW : BalBound (crW w) := (hbb hC).1.congr (fun a => rfl)
+  have hbb0 : BBAll C (crW w) kcs := fun hC' => ⟨(hbb hC').1.congr (fun a => rfl), (hbb hC').2⟩
+  have hsat1 : Sat I (conds1.foldl (addCond s) cs.st).path :=
+    (addConds_sat hs hx.hc1 cs.st).2 ⟨hsat, hx.hc1t hbbW⟩
+  by_cases hlt : w.balanceOf f.this < v
+  · -- the reference cannot pay: the insufficient-funds branch is there
+    have hlt' : (crW w).balanceOf f.this < v := hlt
+    have hins : (s.b (.cmp .ult bc fv)).eval I = true := by rw [(hx.insuff_ok hs).2]; simpa using hlt'
+    have hne : exCheck s o (conds1.foldl (addCond s) cs.st).path (s.b (.cmp .ult bc fv)) ≠ .unsat := by
+      intro hu
+      have := exCheck_sound hs ho (hx.insuff_ok hs).1 hu I hsat1
+      rw [hins] at this; cases this
+    refine Or.inl ⟨_, List.mem_append_left _ (by unfold failNextOf; rw [if_neg hne]; exact List.mem_singleton.2 rfl),
+      ?_, crW w, _, kcs, hx.fail_rel hs,
+      (runStack_create_fail hstep hm (Or.inl (by rw [e_this]; exact hlt)) r).1 hrun, hbb0⟩
+    exact (addCond_sat hs (hx.insuff_ok hs).1).2 ⟨hsat1, hins⟩
+  · have hle : v ≤ w.balanceOf f.this := by omega
+    have hle' : v ≤ (crW w).balanceOf f.this := hle
+    have hsuf : (s.b (.cmp .uge bc fv)).eval I = true := by rw [(hx.suff_ok hs).2]; simpa using hle'
+    have hsat2 : Sat I (addCond s (conds1.foldl (addCond s) cs.st) (s.b (.cmp .uge bc fv))).path :=
+      (addCond_sat hs (hx.suff_ok hs).1).2 ⟨hsat1, hsuf⟩
+    rcases createMain_cases s o cfg codes (crCs cs) 0xf0 (crAddr cfg cs) fv rest init bc conds1 with
+      ⟨h4, he⟩ | ⟨e0, he0, hst0, hr'⟩ | ⟨_, _, hfalse⟩ | ⟨h4, h5, conds2, bt, hbo, he⟩
+    · -- the address is taken
+      have hcol : ((crW w).codeOf (p.newAddress (w.created + 1))).isSome = true := by
+        rw [haddr]; show (w.codeOf _).isSome = true; rw [hcodes]; exact h4
+      refine Or.inl ⟨_, List.mem_append_right _ (by rw [he]; exact List.mem_singleton.2 rfl), hsat1, crW w, _, kcs,
+        hx.collide_rel hs, (runStack_create_fail hstep hm (Or.inr (Or.inr hcol)) r).1 hrun, hbb0⟩
+    · exact Or.inr (Or.inl ⟨e0, by rw [he0]; simp, by rw [hst0]; exact ⟨rfl, rfl, rfl, rfl⟩, Or.inr (Or.inl hr')⟩)
+    · rw [hfalse] at hsuf; cases hsuf
+    · obtain ⟨hc2, hc2t, w', f', kcs', hrel', hiff, hbb'⟩ :=
+        hx.create_ok hs ho hb hdep hcodes hch hcr hrel hstep hm hinit hib h4 h5 hle hsat2 hbo
+      have hsatM : Sat I (mainSt s (crCs cs) bc fv conds1 conds2).path :=
+        (addConds_sat hs hc2 _).2 ⟨hsat2, hc2t (hbb hC).1⟩
+      exact Or.inl ⟨_, List.mem_append_right _ (by rw [he]; exact List.mem_singleton.2 rfl), hsatM, w', f', kcs',
+        hrel', (hiff r).1 hrun, fun hC' => hbb' (hbb hC')⟩
+
+end
+
 /-- **stepC_sound.** `hob`: the solver's `unsat` answers are assumed right as soon as balances are followed
     (`Exec.select` simplifies a read of the balance array with them); otherwise nothing is assumed of the oracle. -/
 theorem stepC_sound (hs : SimpSound s) (hI : I.Std) (hmem : cfg.maxMem + 32 ≤ p.memLimit)
@@ -2566,7 +3166,18 @@ theorem stepC_sound (hs : SimpSound s) (hI : I.Std) (hmem : cfg.maxMem + 32 ≤ 
   · rename_i hc
     have hop : opAt cs.code cs.st.pc = 0xf0 := (isCreateOp_iff _).1 hc.2
     rw [hop]
-    exact finish_sound hrel hsat (createOut_corr (o := o) hs hmem hdep hcodes' hch hrel hop hc.1).sound
+    refine finish_sound hrel hsat ?_
+    rcases createOut_corr (o := o) hs hmem hdep hcodes' hch hrel hop hc.1 with h | h
+    · exact h.sound
+    · by_cases hcr : cfg.create = true
+      swap
+      · rw [createOut_off (by simpa using hcr)]
+        exact CallCorr.sound (Or.inl ⟨_, rfl, rfl, Or.inl ⟨_, rfl⟩⟩)
+      by_cases hbal : cfg.balances = true
+      · exact createValue_sound hs (hob hbal).1 (hob hbal).2 hdep hcodes' hch hcr hbal hrel hsat h
+      · obtain ⟨v, fv, off, len, rest, crest, init, e, _⟩ := h
+        rw [e, createGoV_off (by simpa using hbal)]
+        exact CallCorr.sound (Or.inl ⟨_, rfl, rfl, Or.inl ⟨_, rfl⟩⟩)
   split
   · rename_i hc
     refine finish_sound hrel hsat ?_
@@ -2630,8 +3241,18 @@ theorem stepC_complete (hs : SimpSound s) (ho : OracleSound o) (hI : I.Std) (hme
   · rename_i hc
     have hop : opAt cs.code cs.st.pc = 0xf0 := (isCreateOp_iff _).1 hc.2
     rw [hop]
-    exact finish_complete hrel hsat hrun hbb
-      ((createOut_corr (o := o) hs hmem hdep hcodes' hch hrel hop hc.1).complete hrel hsat hrun hbb)
+    refine finish_complete hrel hsat hrun hbb ?_
+    rcases createOut_corr (o := o) hs hmem hdep hcodes' hch hrel hop hc.1 with h | h
+    · exact h.complete hrel hsat hrun hbb
+    · by_cases hcr : cfg.create = true
+      swap
+      · rw [createOut_off (by simpa using hcr)]
+        exact CallCorr.complete (Or.inl ⟨_, rfl, rfl, Or.inl ⟨_, rfl⟩⟩) hrel hsat hrun hbb
+      by_cases hbal : cfg.balances = true
+      · exact createValue_complete hs ho (hb hbal) hdep hcodes' hch hcr hbal hrel hsat hrun hbal hbb h
+      · obtain ⟨v, fv, off, len, rest, crest, init, e, _⟩ := h
+        rw [e, createGoV_off (by simpa using hbal)]
+        exact CallCorr.complete (Or.inl ⟨_, rfl, rfl, Or.inl ⟨_, rfl⟩⟩) hrel hsat hrun hbb
   split
   · rename_i hc
     refine finish_complete hrel hsat hrun hbb ?_
